@@ -48,3 +48,13 @@ def parseClosePayload (p : Bytes) : CloseParse :=
     if validWireCloseCode code then .ok code reason else .bad
 
 end WS.Model
+
+namespace WS.Model
+open WS
+
+/-- writeClose: the payload of the Close frame that `Close(code, reason)` / an echo puts on the
+wire; `none` = nothing is sent and an error is returned. -/
+def writeClosePayload (code : Int) (reason : Bytes) : Option Bytes :=
+  if code = 1005 then some [] else closeBytesErr code reason
+
+end WS.Model
